@@ -13,7 +13,7 @@ K  (model vs implementation)
    K-route    for every generated program and configuration: which cycles / results / headers are offloaded (number and
               order of uploads) == Lean `wantsBatch` / `wantsCollector` / `serveAll`.
    K-stream   socket family: per stream, the exact event sequence the client observed == Lean `C30.Pipe.iterate /
-              exchangeAll` over the toy environment — also when the stored object was corrupted (the model gets the corrupted
+              exchangeAll` over the toy environment; HTTP: the observation == Lean `C30.Http.iterateX / exchangeAllX` — also when the stored object was corrupted (the model gets the corrupted
               object's view as the harness parsed it).
 O  (property on the implementation)
    O-transparent  programs x thresholds {0, around a batch size, never, no storage} x {none, zstd, gzip} x {pipe, http,
@@ -40,7 +40,7 @@ from harness.common.extsvc import ExtCfg
 from harness.common.lean import s2j
 
 PROPERTY = "C30"
-LEAN_MODULES = ["VgiVerif.Proofs.C30"]
+LEAN_MODULES = ["VgiVerif.Proofs.C30", "VgiVerif.Proofs.C30Http"]
 EXTRACTORS = ["gen_c30"]
 OBLIGATIONS = [
     "VgiVerif.C30.C30_integrity",
@@ -54,6 +54,9 @@ OBLIGATIONS = [
     "VgiVerif.C30.C30_pipe_producer_transparent",
     "VgiVerif.C30.C30_pipe_exchange_transparent",
     "VgiVerif.C30.C30_threshold_independent",
+    "VgiVerif.C30.C30_http_producer_transparent",
+    "VgiVerif.C30.C30_http_exchange_transparent",
+    "VgiVerif.C30.C30_transport_independent",
 ]
 TRUSTED = [
     "harness-side `tenacity` shim (Retrying / stop_after_attempt / wait_fixed / retry_if_exception_type) registered in "
@@ -71,9 +74,9 @@ PARTIAL = [
     "pointers without vgi_rpc.location.sha256 (documented backward-compat): content changes that leave the payload well-formed "
     "are not detectable by design — the integrity theorems state the digest clause under `expSha = some h`, the oracle skips "
     "exactly those cases (tag o:excluded-nosha-content)",
-    "the stream-level transparency theorems cover the socket-family readers (producer, exchange, unary result, header, request); "
-    "the HTTP client applies the same per-batch function (`resolve_external_location` after `_dispatch_log_or_error`) and is tied "
-    "by the differential run, not by a separate Lean model of its turn loop",
+    "the stream-level theorems quantify over fully consumed sessions (open, every batch read, close) as Engine does; the HTTP "
+    "model (turn loop, eager /init parse, continuation following, exchange) is compared with the code on its observation "
+    "(logs / data / terminal, each in order), streams with a header only through the same-transport inline run",
     "the sandbox's httpx2 cannot decode zstd responses: the real-httpx2 configuration (client upload-URL flow) runs with request "
     "compression off",
 ]
@@ -287,8 +290,10 @@ def model_stream(ctx: Any, m: dict[str, Any], n_inputs: int | None, cfg: ExtCfg,
     r = ctx.driver.call("C30.stream", args)
     evs = [c01.model_ev(e) for e in r["events"]]
     # a zero-row batch has no first value: the harness reads its identity as None
-    evs = [["data", None, 0, e[3]] if e[0] == "data" and e[2] == 0 else e for e in evs]
-    return {"events": evs, "uploads": r["uploads"], "routes": r["routes"]}
+    zr = lambda e: ["data", None, 0, e[3]] if e[0] == "data" and e[2] == 0 else e  # noqa: E731
+    evs = [zr(e) for e in evs]
+    ho = {k: [zr(c01.model_ev(e)) for e in v] for k, v in r["http_obs"].items()}
+    return {"events": evs, "uploads": r["uploads"], "routes": r["routes"], "http_obs": ho}
 
 
 def expected_uploads(ctx: Any, desc: dict[str, Any], script: list[list[Any]], cfg: ExtCfg) -> list[tuple[int, str]] | None:
@@ -419,10 +424,19 @@ def check_program(ctx: Any, store: extsvc.Store, desc: dict[str, Any], script: l
         # parse regroups events (C01/C11's subject); over HTTP the tie is the same-transport inline comparison above.
         for i, (name, evs) in enumerate(calls):
             m = by_name[name]
-            if cfg.kind != "pipe" or m["kind"] == "unary" or m.get("init", "ok") != "ok":
+            if m["kind"] == "unary" or m.get("init", "ok") != "ok":
                 continue
             ms = model_stream(ctx, m, nin[i], cfg)
             if ms is None:
+                continue
+            if cfg.kind != "pipe":
+                # HTTP: the observation of the C30.Http model (streams without a header: the header travels in the /init
+                # response together with the first turn, which Engine models separately)
+                if not m.get("header") and cfg.cap is None:
+                    o = obs_of(evs)
+                    ctx.tag("k:http-stream")
+                    if o != ms["http_obs"]:
+                        ctx.mismatch({**case, "call_index": i}, ms["http_obs"], o, "http: observation vs C30.Http model")
                 continue
             pre = []
             if m.get("header"):
@@ -430,6 +444,7 @@ def check_program(ctx: Any, store: extsvc.Store, desc: dict[str, Any], script: l
                 pre.append(["header", m.get("hdr", 0)])
             mev = pre + ms["events"]
             ccase = {**case, "call_index": i}
+            ctx.tag("k:pipe-stream")
             if upto_failure(evs) != upto_failure(mev):
                 ctx.mismatch(ccase, mev, evs, "pipe: delivered event order vs C30.Pipe model")
 
